@@ -23,18 +23,7 @@ var _ = Register("C06", func() interface{} { return new(ParseCase) }, func(c int
 func genC06(t *rapid.T) *ParseCase {
 	c := genParseCase(t, c06Decl, c06Argv)
 	// supply some options through the environment
-	c.Env = map[string]string{}
-	for _, o := range c.D.AllOpts() {
-		if o.EnvKey != "" && !o.Kind.IsFunc() && rapid.IntRange(0, 2).Draw(t, "envSet") == 0 {
-			if o.Kind.IsFlag() {
-				c.Env[o.EnvKey] = rapid.SampledFrom([]string{"", "true", "1"}).Draw(t, "envFlagVal")
-			} else if len(o.Choices) > 0 {
-				c.Env[o.EnvKey] = o.Choices[0]
-			} else {
-				c.Env[o.EnvKey] = envSafe(genValidText(t, o.Kind, o.Base))
-			}
-		}
-	}
+	c.Env = genEnv(t, c.D, 0)
 	// ... and some through an INI file read before the command line
 	if rapid.IntRange(0, 2).Draw(t, "withIni") == 0 {
 		for _, o := range c.D.AllOpts() {
@@ -159,4 +148,33 @@ func TestC06(t *testing.T) {
 		c.CmdHandler = rapid.Bool().Draw(t, "cmdhandler")
 		return c
 	}, c06Oracle)
+}
+
+// genEnv sets the environment variable of about a third of the options that have
+// one; badPct percent of the values are invalid for the option (wrong type or
+// not among the choices).
+func genEnv(t *rapid.T, d *Decl, badPct int) map[string]string {
+	env := map[string]string{}
+	for _, o := range d.AllOpts() {
+		if o.EnvKey == "" || o.Kind.IsFunc() || rapid.IntRange(0, 2).Draw(t, "envSet") != 0 {
+			continue
+		}
+		switch {
+		case pct(t, "envBad", badPct):
+			if len(o.Choices) > 0 {
+				env[o.EnvKey] = envSafe(o.Choices[0] + "-nochoice")
+			} else if o.Kind.IsFlag() {
+				env[o.EnvKey] = "maybe"
+			} else {
+				env[o.EnvKey] = envSafe(genInvalidText(t, o.Kind, o.Base))
+			}
+		case o.Kind.IsFlag():
+			env[o.EnvKey] = rapid.SampledFrom([]string{"", "true", "1"}).Draw(t, "envFlagVal")
+		case len(o.Choices) > 0:
+			env[o.EnvKey] = envSafe(o.Choices[0])
+		default:
+			env[o.EnvKey] = envSafe(genValidText(t, o.Kind, o.Base))
+		}
+	}
+	return env
 }
